@@ -349,7 +349,7 @@ def check_case(case: Dict[str, Any], col: Collector, workroot: str = ".") -> Non
 
 
 def plan(tier: str, seed: int, scale: float = 1.0) -> List[Dict[str, Any]]:
-    nshards, n = (16, 45) if tier == "quick" else (64, 200)
+    nshards, n = (16, 60) if tier == "quick" else (64, 200)
     return [{"seed": seed * 6703 + i, "n": max(4, int(n * scale)), "timeout": 1500} for i in range(nshards)]
 
 
